@@ -81,8 +81,9 @@ Lemma step_contrib retries s l : CInv s -> feed_safe s l ->
   out (step retries s l) = out s
   \/ exists pk c cname spch p answers, l = Feed c cname spch p answers /\ out (step retries s l) = (out s ++ [pk])%list /\ carries p spch pk.
 Proof.
-  intros I Hsafe. unfold step. rewrite fire_out. destruct l as [c|c pid pname th|c cname spch p answers|cs|c spchs].
+  intros I Hsafe. unfold step. rewrite fire_out. destruct l as [c|c pid pname th|c cname spch p answers|cs|c spchs|ns nt].
   - left. destruct (zmem _ _); [reflexivity|]. destruct (zlookup _ _); [reflexivity|]. destruct (pairing c) as [shards|]; [|reflexivity].
+    match goal with |- out (settle ?x) = _ => destruct (settle_same_clk x) as [_ ->] end.
     rewrite fold_add_shard_out. reflexivity.
   - left. repeat dm; reflexivity.
   - cbn [feed_safe] in Hsafe. destruct Hsafe as [Hb Hw].
@@ -136,6 +137,7 @@ Proof.
            split; [exact E|]. split; [eapply Forall_impl; [|exact Fop]; intros x [K _]; exact K|]. split; [exact Kt|]. rewrite <- Eo. exact F2.
   - left. reflexivity.
   - left. reflexivity.
+  - left. destruct (handlers s); [|reflexivity]. destruct (wsh s); [|reflexivity]. destruct (Manager.g_hs (mg s)); reflexivity.
 Qed.
 
 (* ---------- every history: the output is the concatenation, in label order, of what each label contributed ---------- *)
